@@ -872,6 +872,35 @@ def main(argv):
                 exit_code = ec
     for ln in out_lines + sorted(set(known_lines)):
         print(ln)
+    # regression corpus: minimised schedules / solo scenarios of earlier violations.  Each is replayed by
+    # `./check --replay` in its own interpreter (under the hash seed it was found with), a few at a time.
+    corpus = K.corpus_files(PROP)
+    corpus_hits, corpus_unusable = 0, []
+    if corpus:
+        import subprocess
+        from concurrent.futures import ThreadPoolExecutor
+
+        def _one(f):
+            env = dict(os.environ, VERIF_NO_CORPUS="1")
+            env.pop("PYTHONHASHSEED", None)
+            env.pop("VERIF_REPLAY_REEXEC", None)
+            try:
+                p_ = subprocess.run([os.path.join(K.VERIF, "check"), "--replay", f], capture_output=True, text=True,
+                                    cwd=K.VERIF, env=env, timeout=900)
+            except subprocess.TimeoutExpired:
+                return f, 2, "timeout"
+            return f, p_.returncode, p_.stdout[-1500:] + p_.stderr[-500:]
+
+        with ThreadPoolExecutor(max_workers=min(6, K.workers())) as ex:
+            for f, rc_, out_ in ex.map(_one, corpus):
+                if rc_ == K.EXIT_VIOLATION and f"VIOLATION property={PROP}" in out_:
+                    corpus_hits += 1
+                    first = next((ln for ln in out_.splitlines() if ln.startswith("replay ") or ln.startswith("  -> ")), "")
+                    print(f"violated clause: corpus scenario {os.path.basename(f)} reproduces: {first[:300]}")
+                    print(f"VIOLATION property={PROP} replay={f}")
+                    exit_code = K.EXIT_VIOLATION
+                elif rc_ != K.EXIT_OK:
+                    corpus_unusable.append(f"{os.path.basename(f)}: exit {rc_}: {out_[-160:]}")
     wall = timer.s()
     families = sorted(set(fam_of.values()))
     samples = [s for p in done for s in p["samples"]][:2] or [{"note": "no sample"}]
@@ -887,6 +916,9 @@ def main(argv):
         "samples": samples,
         "exhaustive": False,
         "runs": tot["runs"],
+        "corpus_scenarios_replayed": len(corpus),
+        "corpus_scenarios_reproduced": corpus_hits,
+        "corpus_scenarios_unusable": corpus_unusable,
         "systematic_runs": tot["systematic_runs"],
         "systematic_runs_planned": len(sys_traces),
         "runs_per_hour": int(tot["runs"] / max(wall - ref_s, 1e-6) * 3600),
@@ -918,7 +950,7 @@ def main(argv):
             "stub": ["datetime.now (simulated clock)", "tqdm (identity)", "open() in naunet.network/templateloader (fault wrapper)", "stdout/logging (sink)"],
         },
     }
-    K.write_evidence(PROP, tier, seed, "exploration", coverage, wall, len(replays), [
+    K.write_evidence(PROP, tier, seed, "exploration", coverage, wall, len(replays) + corpus_hits, [
         "the reference is the same tree's own solo rendering: C17 cannot tell whether it is right, only whether it is the same",
         "victim sessions carry explicit element lists; bare Species/Reaction constructions are atomic with installing the session's lists",
         "only include/ src/ python/ CMakeLists.txt (and jac_pattern.dat) enter the digest; the CMake project VERSION yy.mm is canonicalised",
